@@ -153,7 +153,7 @@ theorem entryStep_eq (style : List Char) (st : PState) (nr : Nat) (l : List Char
       | some p, true =>
         if okEntrySummaryCont (l.drop (style ++ style).length) then
           { st with pending := some { p with summary := p.summary ++ [l.drop (style ++ style).length] } }
-        else { st with pending := none, errs := st.errs ++ [⟨nr, 0, l.length, .malformedSummary⟩] }
+        else { st.commit with errs := st.commit.errs ++ [⟨nr, 0, l.length, .malformedSummary⟩] }
       | _, _ => entryStepB style st.commit nr l := by
   rfl
 
@@ -212,7 +212,8 @@ theorem rt_entryStep_inv (style : List Char) (st : PState) (nr : Nat) (l : List 
           rcases hx with hx | rfl
           · exact k4 x hx
           · exact hok
-      · exact PInv_same st _ rfl rfl (fun q (hq : none = some q) => by cases hq) h
+      · obtain ⟨hc, hcp⟩ := commit_inv st h
+        exact PInv_same st.commit _ rfl rfl (fun q hq => by rw [show _ = st.commit.pending from rfl, hcp] at hq; cases hq) hc
     · obtain ⟨hc, hcp⟩ := commit_inv st h
       exact entryStepB_inv style st.commit nr l hc hcp hl
 
